@@ -334,8 +334,13 @@ package client
 // "The Content-Type header describes what was sent": mangleContentType is only called on the
 // branch of buildHTTP that sends a multipart document, so whatever media type the operation
 // chose, the header has to announce multipart/form-data with the writer's boundary.
+// The clause is split by media type so that the known finding (url-encoded media type, see
+// /verif/KNOWN_FINDINGS.txt) is one named obligation and every other media type stays a live one.
 //@ func mangleContentType
-//@ ensures [C11:describes] result == "multipart/form-data; boundary=" + boundary
+//@ watch TL = call strings.ToLower
+//@ ensures [C11:describesfold] calls(TL) == 1 && arg(TL,0,0) == mediaType
+//@ ensures [C11:describes] ret(TL,0,0) != "application/x-www-form-urlencoded" ==> result == "multipart/form-data; boundary=" + boundary
+//@ ensures [C11:describesurlencoded] ret(TL,0,0) == "application/x-www-form-urlencoded" ==> result == "multipart/form-data; boundary=" + boundary
 //@ assigns \nothing
 
 // The goroutine that writes the multipart document into the pipe. One part is created
